@@ -39,6 +39,27 @@ theorem C10_encryptfrm_memory (E : BlockCipher) (hE : E.Lawful) (key : Bytes) (u
   · simp only [h, if_false]
     exact ⟨trivial, trivial, trivial⟩
 
+/-- EncryptFOpts (the other exported encryption function) transforms its argument in place and touches nothing behind it; more
+than 15 bytes are refused without touching anything -/
+theorem C10_encryptfopts_memory (E : BlockCipher) (hE : E.Lawful) (key : Bytes) (af up : Bool) (addr fcnt : BitVec 32) (s : GoSlice) (hs : s.len ≤ s.arr.length) :
+    ((encryptFOptsMem E key af up addr fcnt s).2).drop s.len = s.arr.drop s.len ∧
+    ((encryptFOptsMem E key af up addr fcnt s).2).length = s.arr.length ∧
+    (encryptFOptsMem E key af up addr fcnt s).1 = LW.encryptFOpts E key af up addr fcnt s.bytes := by
+  have hb : s.bytes.length = s.len := by simp [GoSlice.bytes]; omega
+  unfold encryptFOptsMem
+  rw [CryptoSpec.fopts_spec]
+  by_cases h : s.bytes.length > 15
+  · simp only [h, if_true]; exact ⟨trivial, trivial, trivial⟩
+  · simp only [h, if_false]
+    have hl : (Spec.cryptFOpts E key af up addr fcnt s.bytes).length = s.len := by
+      rw [CryptoSpec.cryptFOpts_length E hE _ _ _ _ _ _ (by omega), hb]
+    refine ⟨?_, ?_, trivial⟩
+    · simp only [overwrite, hl]
+      rw [List.drop_append_of_le_length (by omega)]
+      have : (Spec.cryptFOpts E key af up addr fcnt s.bytes).drop s.len = [] := List.drop_eq_nil_of_le (by omega)
+      rw [this]; simp
+    · simp [overwrite, hl]; omega
+
 /-- the defect that was repaired, stated on the model of the old code: with enough spare capacity behind a non block-aligned
 slice the caller's array afterwards starts with the ciphertext of the PADDED payload, i.e. the `16 - len % 16` bytes after the
 slice have been replaced by key-stream bytes -/
